@@ -14,7 +14,7 @@ def one(runs_q, runs_t, **kw):
 
 PROPS = {
     "C11": one(
-        120_000, 40_000_000,
+        120_000, 12_000_000,
         anchor_files=["io/StringScanner.go"],
         rule="A case is one history on one StringScanner: content of 0-12 characters over {a, b, LF, CR, e-acute, U+1F600} "
              "and 1-40 operations from read/unread/unreadmany/peek/peekline/peekcol/line/col/reset generated in biased phases. "
